@@ -19,7 +19,7 @@ def harvest():
                 os.makedirs(dst, exist_ok=True)
                 shutil.copy(os.path.join(d, "patch.diff"), dst)
                 if os.path.exists(os.path.join(d, "note.md")): shutil.copy(os.path.join(d, "note.md"), dst)
-BASE_DEFAULT = "d534e3c"  # the /repo commit rounds R, S, T, U were written against
+BASE_DEFAULT = "d534e3c"  # (later rounds record their base in base.txt)  # the /repo commit rounds R, S, T, U were written against
 _base_cache = {}
 def base_findings(commit):
     """Finding keys every check reports on the unrefactored tree of `commit` (the refactoring must add none)."""
